@@ -53,7 +53,9 @@ def quantity_of(codes, letter):
             return "feed-rate"
         return None
     if letter == "S":
-        if not codes or any(c in MOTION for c in codes) or any(c in ("M3", "M4") for c in codes):
+        # RS274: an S word is the modal spindle speed / tool power wherever it stands in the
+        # motion group, on G28/G92 blocks, next to M3/M4 and on a bare statement
+        if not codes or any(c in MOTION_OR_OFFSET for c in codes) or any(c in ("M3", "M4") for c in codes):
             return "tool-power"
         for c in codes:
             if c in TEMPERATURE:
